@@ -116,7 +116,7 @@ def run(tier, seed, t0):
              "barrier call per channel, closes. Hook events chanmsg / throttle / loop_end and every write call are "
              "replayed by TLC (WireTrace.tla) through Wire.tla's watermark step, bound and FIFO operators. "
              "non-trivial: every scenario stalls the transport; distinct = distinct (b, H, L, threads, body, "
-             "messages, gate, pattern)" % ("; 400 random tunings" if thorough else ""),
+             "messages, gate, pattern)" % ("; 2000 random tunings" if thorough else ""),
         samples=summ["samples"], verdict=v, exhaustive=False,
         extra={"trace_records_validated": consumed, "scenarios_hung": summ["hung"],
                "scenarios_reaching_throttle": st["scenarios_throttled"], "tunings": st["tunings"],
